@@ -243,6 +243,27 @@ def _overrides(variant, seed):
 
 
 # ----------------------------------------------------------------------------- option menus
+def _inv_asym(m):
+    """a precision matrix as np.linalg.inv returns it: symmetric up to rounding only (one last-bit difference is
+    put in so that the asymmetry does not depend on the LAPACK build)"""
+    p = np.linalg.inv(m)
+    p = (p + p.T) / 2
+    p[0, 1] = np.nextafter(p[0, 1], np.inf)
+    return p
+
+
+def _square_stack(g, diag):
+    """(2, 4, 4) stack of symmetric matrices with `diag` on the diagonal"""
+    v = np.round(g.uniform(0.5, 2, size=(2, 6)), 3)
+    out = np.zeros((2, 4, 4))
+    iu = np.triu_indices(4, 1)
+    for k in range(2):
+        out[k][iu] = v[k]
+        out[k] = out[k] + out[k].T
+        np.fill_diagonal(out[k], diag)
+    return out
+
+
 def _option_menu(base, variant, seed):
     """optional parameter name -> list of alternative values (factories); one option is changed at a
     time, on top of the default call - code paths (and in-place steps) are often option dependent"""
@@ -261,7 +282,10 @@ def _option_menu(base, variant, seed):
         'remove_mean': [lambda: True],
         'descriptor': [lambda: None, lambda: 'conds'],
         'cv_descriptor': [lambda: 'fold'],
-        'noise': [lambda: spd3.copy()],
+        # one precision for all folds; one precision per fold as a caller-owned list of matrices that are symmetric
+        # only up to rounding (what np.linalg.inv returns), and the same as a 3-d array
+        'noise': [lambda: spd3.copy(), lambda: [_inv_asym(spd3), _inv_asym(spd3 + 0.1 * np.eye(3))],
+                  lambda: np.array([_inv_asym(spd3), _inv_asym(spd3 + 0.1 * np.eye(3))])],
         'sigma_k': [lambda: spd4.copy()],
         'normalize': [lambda: False],
         'ridge_weight': [lambda: 0.5],
@@ -281,6 +305,10 @@ def _option_menu(base, variant, seed):
         'rdms': [lambda: mk_rdms(variant, n_rdm=1, seed=seed)],
         'data': [lambda: mk_rdms(variant, n_rdm=1, seed=seed)],
         'rdm1': [lambda: mk_rdms(variant, n_rdm=1, seed=seed)],
+        # stacks of square matrices whose diagonal is not zero (self-dissimilarities, NaN markers): the caller's array
+        'dissimilarities': [lambda: _square_stack(g, 0.25), lambda: _square_stack(g, np.nan)],
+        'x': [lambda: _square_stack(g, 0.25), lambda: _square_stack(g, np.nan)],
+        'rdm': [lambda: _square_stack(g, 0.25), lambda: _square_stack(g, np.nan)],
     }
     if base in methods:
         M['method'] = [(lambda m=m: m) for m in methods[base]]
@@ -301,7 +329,8 @@ def option_variants(qual, kind, owner, fn):
     M = _option_menu(_base(qual), VARIANTS[0], 0)
     out = []
     for p in sig.parameters.values():
-        if p.name not in M or (p.default is inspect._empty and p.name not in ('rdms', 'data', 'rdm1')):
+        if p.name not in M or (p.default is inspect._empty and p.name not in ('rdms', 'data', 'rdm1', 'dissimilarities',
+                                                                          'x', 'rdm')):
             continue
         for k in range(len(M[p.name])):
             out.append([p.name, k])
